@@ -68,8 +68,14 @@ def gen_path_value(rng, tkind, index):
         return 'dest/' + enc + rng.choice([' ', '  ', '\t']), 'trailing-space'
     if r < 0.90:
         return './dest/' + enc, 'rel-dot'
-    if r < 0.94:
+    if r < 0.93:
         return 'dest//' + enc, 'rel-double-slash'
+    if r < 0.95:
+        return rng.choice(['dest/' + enc + '/', 'dest/./' + enc,
+                           'dest/' + enc + '/.']), 'rel-redundant'
+    if r < 0.97:
+        return rng.choice(['@@R@@/dest/' + enc + '/', '@@R@@//dest/' + enc,
+                           '@@R@@/dest/./' + enc]), 'abs-redundant'
     return '', 'empty'
 
 
@@ -321,7 +327,11 @@ def _run_case(case):
             want = os.path.normpath(Rr['path'].replace('@R', '/R', 1))
             got = os.path.normpath(arr.replace('@R', '/R', 1))
             if want != got and '..' not in Rr['path'].split('/'):
-                viol('restored-to-a-different-path-than-listed', runs=runs)
+                # a Path that ends in a separator (or in "/.") names the entry
+                # itself; told apart because it fails by a mechanism of its own
+                tail = '/trailing-separator' if (
+                    Rr['path'].endswith('/') or Rr['path'].endswith('/.')) else ''
+                viol('restored-to-a-different-path-than-listed' + tail, runs=runs)
     # spec: relative Path in $topdir trash dirs is resolved against $topdir
     if L_ is not None and case['tkind'] in ('top', 'alt', 'alt-root') and \
             case['pclass'].startswith('rel') and case['pclass'] != 'rel-escapes':
